@@ -1,6 +1,6 @@
 """What MANIFEST.json claims, per property."""
 HOOK_COMMITS = ["77b2c42", "6128e10", "5f416f7", "71aa134", "8a2b985", "97ca607", "00b31e7", "29278f7", "85b0f09", "9dbd401", "f1dc223", "2b0d9e1", "910f31b", "fcec086"]
-FIX_COMMITS = ["5da2d24", "9b55744", "1ceb643", "2d49340", "9d87992", "737054a", "6331ab3", "02d90a3", "55099e0", "525f2ed", "54287dc", "82ec18b", "6946a78", "98af13c", "7d6d443", "c8fc19d", "fe16054", "301ccb6", "5b06179", "0dfdf56", "6455364", "0012f56", "629893a", "f3bad56", "4b4c069", "a888699", "97e996b", "1f4e693", "e21ec6a", "225f66d", "a11a6d4"]
+FIX_COMMITS = ["5da2d24", "9b55744", "1ceb643", "2d49340", "9d87992", "737054a", "6331ab3", "02d90a3", "55099e0", "525f2ed", "54287dc", "82ec18b", "6946a78", "98af13c", "7d6d443", "c8fc19d", "fe16054", "301ccb6", "5b06179", "0dfdf56", "6455364", "0012f56", "629893a", "f3bad56", "4b4c069", "a888699", "97e996b", "1f4e693", "e21ec6a", "225f66d", "a11a6d4", "57de50f"]
 NOTES = ("Every check: TLC model-checks the module's design on small constants, then binds it to /repo's current working "
          "tree (rebuilt on every run with -tags verif). Exit 2 = infrastructure problem, never a verdict.")
 NOT_APPLICABLE = {}
